@@ -13,6 +13,8 @@ mod formatters;
 mod shape;
 mod sort_requires;
 mod verify_ast;
+#[cfg(stylua_verif)]
+pub mod verif_hooks;
 
 /// The Lua syntax version to use
 #[derive(Debug, Default, Copy, Clone, PartialEq, Eq, Deserialize)]
